@@ -10,7 +10,7 @@ pub fn gen_big_text(r: &mut Rng) -> String {
         text.push('\u{feff}');
     }
     let eols = ["\n", "\r\n", "\r"];
-    match r.below(6) {
+    match r.below(7) {
         0 => {
             // one very long line (300..3000 columns) between two short ones
             text.push_str("a = 1");
@@ -38,6 +38,22 @@ pub fn gen_big_text(r: &mut Rng) -> String {
                 }
                 text.push_str(eols[if e < 3 { e as usize } else { r.below(3) as usize }]);
             }
+        }
+        6 => {
+            // more than 2^16 lines (row numbers beyond 16 bits), a non-ASCII line near the end
+            let e = r.below(3) as usize;
+            let n = r.range(65_600, 70_000);
+            for i in 0..n {
+                if i + 3 == n {
+                    text.push_str("é = 'ü'");
+                } else if i % 1000 == 7 {
+                    text.push_str("yy");
+                } else {
+                    text.push('x');
+                }
+                text.push_str(eols[e]);
+            }
+            text.push_str("end");
         }
         4 | 5 => {
             // something interesting placed exactly across a power-of-two offset (block-wise and
